@@ -946,7 +946,17 @@ func ruleWorkingTrie(c *Ctx) {
 			}
 			nflush++
 			key := "flush-height." + FuncKey(fd.Obj)
-			a, b := f.Mentions(s.call.Args[0], s.blk), f.Mentions(idx, nil)
+			strip := func(m map[string]bool) map[string]bool { // names of intermediate locals do not matter, their sources do
+				out := map[string]bool{}
+				for k := range m {
+					if strings.HasPrefix(k, "local:") || strings.HasPrefix(k, "local<-") {
+						continue
+					}
+					out[k] = true
+				}
+				return out
+			}
+			a, b := strip(f.Mentions(s.call.Args[0], s.blk)), strip(f.Mentions(idx, nil))
 			same := len(a) == len(b)
 			for k := range a {
 				if !b[k] {
